@@ -2,7 +2,7 @@
 
 Explicit-state search over *histories of compilations* on the real process-wide compiler state.
 
-* Alphabet: the 34 designs of verif/gen/c11_designs.py (accepted ones and rejected ones, one per failure stage).
+* Alphabet: the 40 designs of verif/gen/c11_designs.py (accepted ones and rejected ones, one per failure stage).
 * Golden outcome of a letter = its compilation in a fresh interpreter (PYTHONHASHSEED=0) with an empty history.
 * History tree: every history up to a complete length is executed in one interpreter; the tree is explored
   depth-first with os.fork() as the state snapshot (verif/gen/c11_tree.py, a stand-alone script started in fresh
@@ -10,7 +10,7 @@ Explicit-state search over *histories of compilations* on the real process-wide 
   again; mode "fresh": each compilation imports a new copy of the module file.
     quick   : all histories [p] and [p, v] with p any letter, v in VICTIMS10 or v = p (reuse); all <=3 over the
               6-letter core (reuse); all <=2 over the core (fresh)
-    thorough: all histories <=3 over all letters whose 3rd letter is an accepted design or repeats an earlier letter
+    thorough: all histories <=3 over all letters whose 3rd letter is in VICTIMS_THOROUGH or repeats an earlier letter
               (reuse); all <=4 over the 8-letter core (reuse); all <=2 over all letters (fresh)
 * Corpus stratum: upstream reference designs X (cocotb stubbed): [X, X] for every 8th design (quick); for all
   designs [X, X], [X, Y] for the 8 designs following X and [rejected letter, X] (thorough).
@@ -154,7 +154,7 @@ def check_variants(run, moddir, letters, order, golden):
     if run.thorough:
         combos = [(s, n) for s in range(16) for n in (0, 1000, 50000, 333333)]
     else:
-        combos = [(1, 0), (2, 0), (3, 0), (0, 50000)]
+        combos = [(1, 0), (2, 0), (3, 50000)]
     run.coverage_extra["variant_configurations"] = [f"PYTHONHASHSEED={s},prealloc={n}" for s, n in combos][:8]
     tasks = []
     for l in order:
@@ -206,7 +206,10 @@ CORE6 = ["coro", "syncflag", "prefix", "rej_lowering", "rej_seqctx", "rej_prefix
 CORE8 = CORE6 + ["env3", "env5"]
 
 
-VICTIMS10 = ["comb", "coro", "syncflag", "prefix", "glob5", "env5", "dyn_b", "types_asc", "types_desc"]
+# last letters (victims) of the longest histories over the full alphabet; every letter is additionally its own victim
+VICTIMS10 = ["comb", "coro", "syncflag", "prefix", "glob5", "env5", "dyn_b", "types_asc", "types_desc",
+             "seqattrs_b", "base_b"]
+VICTIMS_THOROUGH = VICTIMS10 + ["glob3", "env3", "dyn_a", "seqattrs_a", "base_a", "portinit", "alias", "pushed"]
 
 
 def tree_strata(run, order, golden):
@@ -218,7 +221,8 @@ def tree_strata(run, order, golden):
     accepted = [l for l in order if golden[l]["ok"]]
     if run.thorough:
         core = [l for l in CORE8 if l in order]
-        strata = [("full", "reuse", order, 3, 2, 0, accepted), ("full", "fresh", order, 2, 1, 0, None),
+        vict = [l for l in VICTIMS_THOROUGH if l in accepted]
+        strata = [("full", "reuse", order, 3, 2, 0, vict), ("full", "fresh", order, 2, 1, 0, None),
                   ("core", "reuse", core, 4, 2, 4, None)]
     else:
         core = [l for l in CORE6 if l in order]
